@@ -95,6 +95,14 @@ pub fn plan_for(property: &str) -> Option<(&'static str, Vec<PlanItem>)> {
             "C07",
             vec![PlanItem { family: "rx_timing", run: c07_rx, quick: 5000, thorough: 150000, determinism_check: true }],
         ),
+        "C14" => (
+            "C14",
+            vec![
+                PlanItem { family: "mtu_duplex", run: c14_duplex, quick: 4000, thorough: 100000, determinism_check: true },
+                PlanItem { family: "mtu_converge", run: c14_converge, quick: 600, thorough: 12000, determinism_check: false },
+                PlanItem { family: "mtu_peer_sizes", run: c14_tx, quick: 2000, thorough: 60000, determinism_check: false },
+            ],
+        ),
         "C16" => (
             "C16",
             vec![PlanItem { family: "direct_rtte", run: crate::fam::direct::direct_rtte, quick: 4000, thorough: 40000, determinism_check: false }],
@@ -431,6 +439,153 @@ fn c07_rx(ctx: &CaseCtx) -> CaseReport {
     );
     rep.counters.add("datagrams", view.pkts.len() as u64);
     rep.nontrivial = rep.counters.get("c07_emissions_seen") > 2;
+    let end = run.end_time;
+    finish(&mut rep, ctx, &view, run.events, end);
+    rep
+}
+
+fn c14_duplex(ctx: &CaseCtx) -> CaseReport {
+    let mut rep = CaseReport::new(ctx.family, ctx.index, ctx.case_seed);
+    let g = duplex::generate(ctx.case_seed, Profile::Mtu, if ctx.tier == Tier::Quick { 150_000 } else { 600_000 });
+    rep.desc = format!("{} plan[{}]", g.cfg.describe(), g.plan_desc);
+    let cfg = g.cfg.clone();
+    let run = duplex::run_duplex(ctx.case_seed, &g.cfg, g.plan);
+    if let Some(p) = &run.panicked {
+        rep.inconclusive.push(format!("panic during the run: {p}"));
+    }
+    let view = WireView::build(&run.events);
+    let addrs = duplex_addrs(&cfg);
+    let ipv4 = !cfg.ipv6;
+    mon::c14::check_datagram_sizes(&mut rep, &view, addrs[0], cfg.a.link_mtu.unwrap_or(1500));
+    mon::c14::check_datagram_sizes(&mut rep, &view, addrs[1], cfg.b.link_mtu.unwrap_or(1500));
+    // per direction: the proven size starts at the sender's protocol minimum
+    for (from_init, sc) in [(true, &cfg.a), (false, &cfg.b)] {
+        if let Some(m) = sender_model_for(&run.events, &view, from_init, sc.min_payload(ipv4)) {
+            mon::c14::check_probe_discipline(&mut rep, &m);
+        }
+    }
+    // content across failed probes
+    if !view.conns.is_empty() {
+        let mut scratch = CaseReport::new("scratch", 0, 0);
+        let r0 = mon::c01::check_wire_dir(&mut scratch, &view, 0, true, stream_key(ctx.case_seed, 0, 0), "w0");
+        let r1 = mon::c01::check_wire_dir(&mut scratch, &view, 0, false, stream_key(ctx.case_seed, 0, 1), "w1");
+        for (side, r) in [(0u8, &r0), (1u8, &r1)] {
+            mon::c01::check_boundary(&mut scratch, &run.events, 0, side, r);
+        }
+        rep.counters.add("c14_content_reads_checked", scratch.counters.get("c01_reads_checked"));
+        rep.counters.add("c14_probe_splits_seen", scratch.counters.get("c01_probe_splits_seen"));
+        for v in scratch.violations {
+            rep.violate("C14", v.rule, format!("content {}", v.signature), v.detail, v.at);
+        }
+    }
+    rep.counters.add("datagrams", view.pkts.len() as u64);
+    rep.nontrivial = rep.counters.get("c14_first_transmissions_checked") > 4;
+    let end = run.end_time;
+    finish(&mut rep, ctx, &view, run.events, end);
+    rep
+}
+
+/// The sender model of the duplex family counts API side 0 writes only; for direction B->A the
+/// accepted-bytes field is not used by the C14 oracles, so the same builder serves both.
+fn sender_model_for(events: &[crate::events::Event], view: &WireView, from_init: bool, min_seg: usize) -> Option<mon::sender::SenderModel> {
+    mon::sender::build(events, view, from_init, min_seg)
+}
+
+/// Convergence: one bulk sender, a silent size black hole somewhere between the protocol minimum
+/// and the link MTU, nothing else lost.
+fn c14_converge(ctx: &CaseCtx) -> CaseReport {
+    use crate::app::{ReaderPlan, WriterEnd, WriterPlan};
+    let mut rep = CaseReport::new(ctx.family, ctx.index, ctx.case_seed);
+    let mut rng = crate::prng::Prng::new(ctx.case_seed);
+    let ipv6 = rng.chance(0.3);
+    let ipv4 = !ipv6;
+    let min_mtu = if ipv4 { 576 } else { 1280 };
+    let link = match rng.below(3) {
+        0 => 1500,
+        1 => rng.usize_range(min_mtu + 20, 1500),
+        _ => rng.usize_range(1500, 9000),
+    };
+    // thorough: every path MTU value is eventually hit by the index; quick: sampled
+    let path = if ctx.tier == Tier::Thorough { min_mtu + (ctx.index as usize % (link - min_mtu + 1)) } else { rng.usize_range(min_mtu, link) };
+    let mut a = crate::sim::SockCfg::default();
+    a.link_mtu = Some(link);
+    a.mtu_probe_max_retransmissions = Some(rng.below(3) as usize);
+    let mut b = crate::sim::SockCfg::default();
+    b.link_mtu = Some(link);
+    let mut plan = crate::sim::FaultPlan::perfect(rng.next_u64());
+    let lat = *rng.pick(&[0u64, 1, 5, 20]) * crate::events::MS;
+    plan.latency = (lat, lat);
+    let emsg = rng.chance(0.3);
+    if emsg {
+        plan.emsgsize_mtu_by_src.insert(if ipv4 { crate::sim::v4(duplex::A_PORT) } else { crate::sim::v6(duplex::A_PORT) }, path);
+    } else {
+        plan.path_mtu = Some(path);
+    }
+    let total = rng.usize_range(400_000, 900_000).max(200 * link);
+    let cfg = duplex::DuplexCfg {
+        ipv6,
+        a,
+        b,
+        w: [
+            WriterPlan { total, chunk: (65536, 400_000), pause_prob: 0.0, pause: (0, 0), flush_prob: 0.0, start_delay: 0, end: WriterEnd::Shutdown },
+            WriterPlan { total: 1, chunk: (1, 1), pause_prob: 0.0, pause: (0, 0), flush_prob: 0.0, start_delay: 0, end: WriterEnd::Shutdown },
+        ],
+        r: [ReaderPlan::greedy(), ReaderPlan::greedy()],
+        tail: crate::events::SEC,
+        deadline: std::time::Duration::from_secs(3600),
+        keep_snapshots: false,
+        coordinated_close: true,
+        chaos: duplex::Chaos::None,
+    };
+    rep.desc = format!("link MTU {link}, path MTU {path} ({}), {} plan[{}]", if emsg { "EMSGSIZE at the sender" } else { "silent black hole" }, cfg.describe(), plan.describe());
+    let run = duplex::run_duplex(ctx.case_seed, &cfg, plan);
+    if let Some(p) = &run.panicked {
+        rep.inconclusive.push(format!("panic during the run: {p}"));
+    }
+    let view = WireView::build(&run.events);
+    let addrs = duplex_addrs(&cfg);
+    mon::c14::check_datagram_sizes(&mut rep, &view, addrs[0], link);
+    let iphdr = if ipv4 { 20 } else { 40 };
+    let fit = path - iphdr - 8 - 20;
+    if let Some(m) = mon::sender::build(&run.events, &view, true, cfg.a.min_payload(ipv4)) {
+        let n = mon::c14::check_probe_discipline(&mut rep, &m);
+        mon::c14::check_convergence(&mut rep, &m, n, fit, cfg.a.min_payload(ipv4), cfg.a.max_payload(ipv4), cfg.a.mtu_probe_max_retransmissions.unwrap_or(1));
+    }
+    // delivered intact
+    let mut scratch = CaseReport::new("scratch", 0, 0);
+    if !view.conns.is_empty() {
+        let r0 = mon::c01::check_wire_dir(&mut scratch, &view, 0, true, stream_key(ctx.case_seed, 0, 0), "w0");
+        mon::c01::check_boundary(&mut scratch, &run.events, 0, 0, &r0);
+        for v in scratch.violations {
+            rep.violate("C14", v.rule, format!("content {}", v.signature), v.detail, v.at);
+        }
+    }
+    if let Some(out) = &run.result {
+        let got = out.r[1].as_ref().map(|r| r.read).unwrap_or(0);
+        if got != total {
+            rep.violate("C14", "transfer-incomplete", "convergence".to_string(), format!("only {got} of {total} bytes arrived on a path that only discards datagrams above {path} bytes"), None);
+        }
+    } else if run.deadline_hit {
+        rep.violate("C14", "transfer-incomplete", "convergence".to_string(), "virtual deadline reached".to_string(), None);
+    }
+    rep.counters.add("datagrams", view.pkts.len() as u64);
+    rep.nontrivial = rep.counters.get("c14_convergence_cases_checked") > 0;
+    let end = run.end_time;
+    finish(&mut rep, ctx, &view, run.events, end);
+    rep
+}
+
+fn c14_tx(ctx: &CaseCtx) -> CaseReport {
+    let mut rep = CaseReport::new(ctx.family, ctx.index, ctx.case_seed);
+    let (cfg, run) = tx_common(ctx, &mut rep, crate::fam::txscript::TxFocus::Mtu, 120_000);
+    let view = WireView::build(&run.events);
+    let real_addr = if cfg.ipv6 { crate::sim::v6(crate::fam::txscript::REAL_PORT) } else { crate::sim::v4(crate::fam::txscript::REAL_PORT) };
+    mon::c14::check_datagram_sizes(&mut rep, &view, real_addr, cfg.sock.link_mtu.unwrap_or(1500));
+    if let Some(m) = mon::sender::build(&run.events, &view, cfg.real_initiates, cfg.sock.min_payload(!cfg.ipv6)) {
+        mon::c14::check_probe_discipline(&mut rep, &m);
+    }
+    rep.counters.add("datagrams", view.pkts.len() as u64);
+    rep.nontrivial = rep.counters.get("c14_datagram_sizes_checked") > 4;
     let end = run.end_time;
     finish(&mut rep, ctx, &view, run.events, end);
     rep
